@@ -1,5 +1,6 @@
 //! gverif: property-based verification harness for malcolmvr/graphrs (library part, shared with the fuzz targets)
 
+pub mod altkey;
 pub mod coherent;
 pub mod core;
 pub mod engine;
